@@ -194,7 +194,15 @@ func negSystematic(g *Gen, o *Out) {
 		// interface-typed lists in which an element the operator cannot compare (a nested object, a nested list)
 		// comes before / after the matching element: `in` and `not in` must fail or succeed together
 		datum := map[string]interface{}{"v": e.val, "s": sl.Interface(), "a": arr.Interface(), "i": []interface{}{other.Interface(), e.val},
-			"j": []interface{}{other.Interface(), map[string]interface{}{"k": "v"}, e.val}, "k": []interface{}{e.val, []interface{}{1}, other.Interface()}}
+			"j": []interface{}{other.Interface(), map[string]interface{}{"k": "v"}, e.val}, "k": []interface{}{e.val, []interface{}{1}, other.Interface()},
+			// runs of the same kind whose LATER element is the zero value of the kind (what a failed conversion of the
+			// literal leaves behind), in interface lists, interface arrays and typed slices
+			"z": []interface{}{e.val, reflect.Zero(t).Interface()}, "zz": [3]interface{}{other.Interface(), reflect.Zero(t).Interface(), reflect.Zero(t).Interface()},
+			"zt": func() interface{} {
+				s := reflect.MakeSlice(reflect.SliceOf(t), 3, 3)
+				s.Index(0).Set(ev)
+				return s.Interface()
+			}()}
 		// matches / not matches on every string-like and byte-sequence shape of the value
 		if ev.Kind() == reflect.String || (ev.Kind() == reflect.Slice && ev.Type().Elem().Kind() == reflect.Uint8) {
 			bs := []byte("1")
@@ -211,7 +219,7 @@ func negSystematic(g *Gen, o *Out) {
 		lits := append(g.literalsFor(ev), g.literalsFor(other)...)
 		for _, lit := range lits {
 			pair(GMatch{Path: []string{"v"}, Op: "eq", Raw: lit, LitStyle: 2}, datum, e.name)
-			for _, c := range []string{"s", "a", "i", "j", "k"} {
+			for _, c := range []string{"s", "a", "i", "j", "k", "z", "zz", "zt"} {
 				pair(GMatch{Path: []string{c}, Op: "in", Raw: lit, LitStyle: 2, Contains: g.r.Intn(2) == 0}, datum, c+" of "+e.name)
 			}
 		}
